@@ -68,7 +68,7 @@ def _build_pre17(self, race):
     overlay = _retag(vlib.REPO, os.path.join(self.out, "overlay"))
     bindir = os.path.join(vlib.OUT, "bin")
     os.makedirs(bindir, exist_ok=True)
-    binp = os.path.join(bindir, "replay-%s-%s" % (self.prop, key))
+    binp = os.path.join(bindir, "replay-%s-%s" % (os.path.basename(self.out), key))   # as Ctx.go_build: one per property and tree
     env = dict(os.environ)
     env.update(vlib.GOENV)
     cmd = ["go", "build", "-tags", "verif,x02pre17", "-overlay", overlay]
